@@ -238,7 +238,12 @@ def eocd_rules(ctx, facts, rep, rule="C08-EOCD"):
         bi, si, s, flds = ag[0]
         for fld, want in (("number_of_files", ".files"), ("number_of_files_on_this_disk", ".files")):
             v = norm(ex.operand(flds[fld], (bi, si)))
-            ok &= rep.check(want in tokens(v) and "len()" in tokens(v), rule, "z64:%s" % fld, where(fz, s["span"]), "%s = files.len()" % fld, "ZIP64 %s = %s" % (fld, show(v)))
+            # the 64-bit field carries the *unclamped* count: files.len() widened, nothing else (no min(), no pass through u16)
+            narrowing = [x for x in walk(v) if x[0] == "cast" and len(x) > 3 and str(x[3]) not in ("u64", "usize", "u128")]
+            others = [x[1] for x in walk(v) if x[0] == "call" and not re.search(r"::len$|convert::(From|Into)", x[1])]
+            via16 = [x for x in walk(v) if x[0] == "call" and re.search(r"convert::(From<u16>|From<u8>|From<u32>)|<u64 as std::convert::From<u(8|16|32)>>", (x[3] or "") + x[1])]
+            good = want in tokens(v) and "len()" in tokens(v) and not narrowing and not others and not via16
+            ok &= rep.check(good, rule, "z64:%s" % fld, where(fz, s["span"]), "%s = files.len()" % fld, "ZIP64 %s = %s (must be the full entry count, not a clamped or narrowed value)" % (fld, show(v)))
         for fld in ("disk_number", "disk_with_central_directory"):
             v = norm(ex.operand(flds[fld], (bi, si)))
             ok &= rep.check(v[0] == "const" and v[2] == 0, rule, "z64:%s" % fld, where(fz, s["span"]), "%s = 0" % fld, "ZIP64 %s = %s" % (fld, show(v)))
